@@ -38,6 +38,7 @@ TARGET = [None]   # cargo target directory of this worker (parallel runs: one pe
 def worker_target(i):
     """target directory for worker i: worker 0 shares the primed one, the others get a copy (made once)"""
     base = os.path.join(runner.CACHE, 'target')
+    i += int(os.environ.get('VERIF_WORKER_OFFSET', '0'))     # a second concurrent self-test run uses its own target directories
     if i == 0:
         return base
     d = os.path.join(runner.CACHE, 'target-w%d' % i)
